@@ -473,10 +473,33 @@ def render(f, rng, ext=".frugal"):
     return "\n\n".join(out) + "\n"
 
 
+# deterministic snippets for generator defects that are known and not repaired (each is a valid
+# program fragment); name -> (text appended to the root, extra files)
+PROBE_SNIPPETS = {
+    "typedef_struct": ("struct ProbeEmber { 1: i32 a }\ntypedef ProbeEmber ProbeWidget\n"
+                       "struct ProbeHolder { 1: ProbeWidget w, 2: list<ProbeWidget> ws }\n", {}),
+    "allcaps_type": ("struct PROBE_CAPS { 1: i32 a }\nstruct ProbeCapsUser { 1: PROBE_CAPS c }\n", {}),
+    "new_prefix_type": ('include "probeinc.frugal"\nstruct ProbeNewUser { 1: probeinc.NewProbe n }\n',
+                        {"probeinc.frugal": "struct NewProbe { 1: i32 a }\n"}),
+    "service_name_shape": ("service probe_base { void ping() }\nservice ProbeKid extends probe_base { void pong() }\n", {}),
+    "allcaps_throws": ("exception ProbeErr { 1: string m }\n"
+                       "service ProbeThrower { void f() throws (1: ProbeErr PROBE_ERR) }\n", {}),
+    "transitive": ('include "probemid.frugal"\nstruct ProbeFarUser { 1: probemid.MidT t, 2: probemid.MidL l }\n',
+                   {"probemid.frugal": 'include "probefar.frugal"\ntypedef probefar.FarS MidT\n'
+                                       "typedef list<probefar.FarU> MidL\n",
+                    "probefar.frugal": "struct FarS { 1: i32 a }\nunion FarU { 1: i32 a }\n"}),
+}
+
+
 def valid_program(rng, exotic=True, size=1.0, probes=()):
-    g = Gen(rng, exotic, size, probes)
+    g = Gen(rng, exotic, size, ())
     files = g.program()
     texts = {f.name + ".frugal": render(f, rng) for f in files}
+    for pr in probes:
+        snippet, extra = PROBE_SNIPPETS[pr]
+        texts["root.frugal"] += "\n" + snippet
+        texts.update(extra)
+        g.features.add("probe:" + pr)
     return {"files": texts, "main": "root.frugal", "features": sorted(g.features),
             "nfiles": len(files), "ndecl": sum(len(f.typedefs) + len(f.enums) + len(f.structs) + len(f.consts) +
                                                len(f.services) + len(f.scopes) for f in files)}
@@ -645,6 +668,9 @@ def arbitrary(rng):
     n = rng.choice([50, 500, 5000])
     kind = rng.choice(["list", "const_list", "const_map", "comment", "paren"])
     if kind == "list":
+        # the generators are cubic in the nesting depth of a type (depth 800: 12-22 s for dart/java,
+        # depth 2000: minutes); the depth is kept where a run stays under the wall-time limit
+        n = min(n, 300)
         return ("struct S { 1: " + "list<" * n + "i32" + ">" * n + " a }").encode()
     if kind == "const_list":
         return ("const list<i32> c = " + "[" * n + "]" * n).encode()
